@@ -139,7 +139,9 @@ def run(ctx: lib.Ctx) -> None:
                 'second byte 00..04, ..00, random) x tz_only x entrypoints (default, names up to 31 chars, names containing %, '
                 'non-ASCII); every key kind and signature notation x boundary payloads; chain ids. observed through the forge/unforge '
                 'functions, through Type.from_micheline_value(v.to_micheline_value("optimized")) of the seven Michelson types, and '
-                'through blind_unpack. malformed: byte strings of every length 0..24 and around 33/34/49/64/96, valid forms with '
+                'through blind_unpack; histories: one value object is compared / sorted / hashed / used as set element or dict key / converted in '
+                'readable, optimized and legacy_optimized mode in random order before the optimized round trip (all seven types), '
+                'and set/map containers of addresses, key hashes and keys are round-tripped through the optimized form. malformed: byte strings of every length 0..24 and around 33/34/49/64/96, valid forms with '
                 'mutated tag/padding bytes, truncations, extensions. non-trivial = every case except the empty byte string; '
                 'distinct = distinct (operation, input)')
     # the rows forge.py relies on (hard-coded prefix lengths 3/4, kinds it names) in the table found in /repo
@@ -352,6 +354,150 @@ def run(ctx: lib.Ctx) -> None:
         if not (ok1 and ok2 and ok3) or w.value != text or bytes.fromhex(m['bytes']) != p:
             report('a chain id does not survive the optimized form', {'value': text, 'optimized': m, 'read_back': w.value if ok3 else repr(w)})
 
+    # ---------------------------------------------------------------- histories on ONE value object
+    # The converters must be functions of the value only: whatever was done with the object before (compared,
+    # sorted, hashed, used as set element / map key, converted in other modes, in any order and repeatedly),
+    # the optimized form is the one a fresh object gives and reads back to the denoted value.
+    from pytezos.michelson.types.base import MichelsonType
+    contract_t = MichelsonType.match({'prim': 'contract', 'args': [{'prim': 'unit'}]})
+    HIST_OPS = ['lt', 'gt', 'sorted', 'eq', 'eq_fresh', 'hash', 'set', 'dict', 'sort_key', 'readable', 'optimized',
+                'legacy_optimized', 'pyobj', 'repr', 'min']
+
+    OP_CODE = {'lt': 'v < o', 'gt': 'o < v', 'sorted': 'sorted([o, v])', 'min': 'min(v, o)', 'eq': 'v == o',
+               'eq_fresh': 'v == T.from_value(x)', 'hash': 'hash(v)', 'set': '{v, o}', 'dict': '{v: 1, o: 2}',
+               'sort_key': "getattr(v, '_sort_key', lambda: None)()", 'readable': "v.to_micheline_value(mode='readable')",
+               'optimized': "v.to_micheline_value(mode='optimized')", 'legacy_optimized': "v.to_micheline_value(mode='legacy_optimized')",
+               'pyobj': 'v.to_python_object()', 'repr': 'repr(v)'}
+    TYPE_EXPR = {'contract': {'prim': 'contract', 'args': [{'prim': 'unit'}]}}
+
+    def run_history(T, value, other, ops):
+        """Fresh object, the operations (exceptions ignored: only their side effects matter), then the observation."""
+        ok, v = lib.call(T.from_value, value)
+        if not ok:
+            return None
+        o = T.from_value(other)
+        env = {'v': v, 'o': o, 'T': T, 'x': value}
+        for op in ops:
+            lib.call(eval, OP_CODE[op], env)
+        ok1, m = lib.call(v.to_micheline_value, mode='optimized')
+        ok0, m0 = lib.call(T.from_value(value).to_micheline_value, mode='optimized')
+        ok2, w = lib.call(T.from_micheline_value, m) if ok1 else (False, None)
+        ok3, rd = lib.call(v.to_micheline_value, mode='readable')
+        return v, (ok1, m), (ok0, m0), (ok2, w), (ok3, rd)
+
+    def history_case(tname, T, value, denoted, other_values, raw=False):
+        ops = [rng.choice(HIST_OPS) for _ in range(rng.choice([1, 1, 2, 3, 5]))]
+        if rng.random() < 0.5:
+            ops[0] = rng.choice(['lt', 'gt', 'sorted', 'sort_key', 'min'])   # ordering first: the shape a cache would break
+        other = other_values[0]
+
+        def verdict(ops_):
+            r = run_history(T, value, other, ops_)
+            if r is None:
+                return None, None
+            v, (ok1, m), (ok0, m0), (ok2, w), (ok3, rd) = r
+            good = ok1 and ok0 and ok2 and m == m0 and ok3 and rd == {'string': v.value}
+            if good and raw:
+                good = E.base58_decode(w.value.encode()) == E.base58_decode(value.encode())
+            elif good:
+                good = w.value == denoted
+            return good, r
+
+        good, r = verdict(ops)
+        if r is None:
+            return
+        v, (ok1, m), (ok0, m0), (ok2, w), _ = r
+        ctx.case(('history', tname, value, tuple(ops)), kind=f'history:{tname}:{len(ops)}',
+                 sample={'type': tname, 'value': value, 'history': ops, 'optimized': m if ok1 else repr(m)})
+        if not good:
+            for op in ops:   # shrink to a single operation when one is enough
+                g1, r1 = verdict([op])
+                if g1 is False:
+                    ops, r = [op], r1
+                    v, (ok1, m), (ok0, m0), (ok2, w), _ = r
+                    break
+            texpr = TYPE_EXPR.get(tname, {'prim': tname})
+            report(f'a {tname} value that was compared / hashed / converted before does not survive the optimized form',
+                   {'type': tname, 'value': value, 'history': ops, 'other': other, 'optimized_after_history': m if ok1 else repr(m),
+                    'optimized_fresh': m0 if ok0 else repr(m0), 'read_back': w.value if ok2 else repr(w), 'expected': denoted or 'same raw bytes',
+                    'repro': f"from pytezos.michelson.types.base import MichelsonType as M; T=M.match({texpr!r}); x={value!r}; v=T.from_value(x); "
+                             f"o=T.from_value({other!r}); " + '; '.join(OP_CODE[op] for op in ops)
+                             + "; print(T.from_micheline_value(v.to_micheline_value(mode='optimized')).value)"})
+        elif ok1 and tname in ('address', 'contract', 'tx_rollup_l2_address') and sel.random() < 0.3:
+            # (A) the bytes written after the history are the model's
+            a, pct, ep = denoted.partition('%')
+            tp, h = parse_text(table, a)
+            tcases.append((f'((0%N, nil, nil), (2%nat, {cnat(ADDR.index(tp))}, false, {chex(h)}, {chex(ep.encode() if pct else b"default")}))',
+                           out_bytes(True, bytes.fromhex(m['bytes']))))
+            tmeta.append(('forge_contract after history', value))
+
+    n_hist = ctx.n(3, 25)
+    for kind in ADDR:
+        T_list = [('tx_rollup_l2_address', D.TXRAddress)] if kind == 'txr1' else [('address', D.AddressType), ('contract', contract_t)]
+        for h in digests(rng, 20, n_hist):
+            a = b58(kind, h)
+            a2 = b58(kind, rb(rng, 20))
+            for tname, T in T_list:
+                for ep in [None] + rng.sample([e for e in ENTRYPOINTS if e != ''], 2):
+                    value = a if ep is None else f'{a}%{ep}'
+                    denoted = a if ep in (None, 'default') else value
+                    others = [a, f'{a}%zz', a2, f'{a2}%{ep or "x"}']
+                    rng.shuffle(others)
+                    history_case(tname, T, value, denoted, others)
+    for kind in ADDR[:4]:
+        for h in digests(rng, 20, n_hist):
+            history_case('key_hash', D.KeyHashType, b58(kind, h), b58(kind, h), [b58(k2, rb(rng, 20)) for k2 in ADDR[:4]])
+    for kind, n in KEYS:
+        for p in digests(rng, n, n_hist):
+            history_case('key', D.KeyType, b58(kind, p), b58(kind, p), [b58(k2, rb(rng, n2)) for k2, n2 in KEYS])
+    for kind, n in SIGS:
+        for p in digests(rng, n, max(2, n_hist // 2)):
+            history_case('signature', D.SignatureType, b58(kind, p), None, [b58(k2, rb(rng, n2)) for k2, n2 in SIGS] + [b58('sig' if n == 64 else 'BLsig', p)], raw=True)
+    for p in digests(rng, 4, n_hist):
+        history_case('chain_id', D.ChainIdType, b58('Net', p), b58('Net', p), [b58('Net', rb(rng, 4)), b58('Net', bytes(4))])
+
+    # containers: constructors of set / map compare their elements before anything is written
+    def container_case(prim, elem_prim, strings):
+        elem_t = MichelsonType.match({'prim': elem_prim})
+        ok, objs = lib.call(lambda: sorted(elem_t.from_micheline_value({'string': x}) for x in strings))
+        if not ok:
+            return
+        ordered = []
+        for o in objs:
+            if o.value not in ordered:
+                ordered.append(o.value)
+        if prim == 'set':
+            t_ = MichelsonType.match({'prim': 'set', 'args': [{'prim': elem_prim}]})
+            lit = [{'string': x} for x in ordered]
+            names = lambda r: [x['string'] for x in r]  # noqa: E731
+        else:
+            t_ = MichelsonType.match({'prim': prim, 'args': [{'prim': elem_prim}, {'prim': 'nat'}]})
+            lit = [{'prim': 'Elt', 'args': [{'string': x}, {'int': str(i)}]} for i, x in enumerate(ordered)]
+            names = lambda r: [x['args'][0]['string'] for x in r]  # noqa: E731
+        ok1, val = lib.call(t_.from_micheline_value, lit)
+        if not ok1:
+            return   # the ordering of the elements is C03's business
+        ok2, opt = lib.call(val.to_micheline_value, mode='optimized')
+        ok3, back = lib.call(t_.from_micheline_value, opt) if ok2 else (False, None)
+        ok4, rd = lib.call(back.to_micheline_value, mode='readable') if ok3 else (False, None)
+        ctx.case(('container', prim, elem_prim, tuple(ordered)), kind=f'history:{prim} {elem_prim}')
+        if not (ok2 and ok3 and ok4) or names(rd) != ordered:
+            report(f'the elements of a `{prim} {elem_prim}` do not survive the optimized form',
+                   {'type': f'{prim} {elem_prim}', 'elements': ordered, 'optimized': opt if ok2 else repr(opt),
+                    'read_back': names(rd) if ok4 else repr(rd if ok3 else back),
+                    'repro': f"t=MichelsonType.match(<{prim} {elem_prim} ...>); t.from_micheline_value(t.from_micheline_value(<readable {ordered}>).to_micheline_value(mode='optimized'))"})
+
+    for _ in range(ctx.n(6, 60)):
+        kind = rng.choice([k for k in ADDR if k != 'txr1'])
+        a, a2 = b58(kind, rng.choice(digests(rng, 20, 4))), b58(rng.choice(['tz1', 'KT1', 'sr1', 'tz4']), rb(rng, 20))
+        strings = [a, f'{a}%{rng.choice(["foo", "a", "x" * 31, "a%b"])}', f'{a}%bar', a2, f'{a2}%foo']
+        rng.shuffle(strings)
+        container_case(rng.choice(['set', 'map']), 'address', strings[:rng.randrange(2, 6)])
+    for _ in range(ctx.n(3, 30)):
+        container_case(rng.choice(['set', 'map']), 'key_hash', [b58(rng.choice(ADDR[:4]), rng.choice(digests(rng, 20, 6))) for _ in range(3)])
+        kk, kn = rng.choice(KEYS)
+        container_case(rng.choice(['set', 'map']), 'key', [b58(kk, rb(rng, kn)), b58(*[(k, rb(rng, n)) for k, n in [rng.choice(KEYS)]][0])])
+
     # ---------------------------------------------------------------- malformed stream + blind_unpack
     blobs = [b'']
     for n in list(range(0, 25)) + [32, 33, 34, 35, 48, 49, 50, 63, 64, 65, 95, 96, 97]:
@@ -454,6 +600,23 @@ def run(ctx: lib.Ctx) -> None:
         if ok2 and (not ok or r != val):
             report(f'blind_unpack mistakes a valid optimized form ({name[8:]}) for something else',
                    {'bytes': hx_, 'expected': val, 'blind_unpack': repr(r), 'repro': f'pytezos.michelson.micheline.blind_unpack(bytes.fromhex({hx_!r}))'})
+
+    # ---------------------------------------------------------------- the module functions are functions
+    # (a sample of the earlier calls is repeated in another order: a cache keyed on too little would show)
+    FN = {'forge_address': lambda a, b: F.forge_address(a, b), 'unforge_address': lambda hx_: F.unforge_address(bytes.fromhex(hx_)),
+          'unforge_contract': lambda hx_: F.unforge_contract(bytes.fromhex(hx_)), 'unforge_public_key': lambda hx_: F.unforge_public_key(bytes.fromhex(hx_)),
+          'forge_public_key': lambda a: F.forge_public_key(a)}
+    calls = [m for m in tmeta_all if m[0] in FN][:ctx.n(300, 3000)]
+    first = [lib.call(FN[m[0]], *m[1:]) for m in calls]
+    order = list(range(len(calls)))
+    rng.shuffle(order)
+    for i in order:
+        again = lib.call(FN[calls[i][0]], *calls[i][1:])
+        if again[0] != first[i][0] or (again[0] and again[1] != first[i][1]):
+            report(f'{calls[i][0]} gives different answers for the same argument depending on the calls made before',
+                   {'call': list(calls[i]), 'first': repr(first[i][1]), 'later': repr(again[1])})
+            break
+    ctx.extra['calls_repeated_in_other_order'] = len(calls)
 
     # ---------------------------------------------------------------- comparison inside coqc
     ctx.extra['cases_typed'] = len(tcases)
